@@ -197,20 +197,10 @@ class GaussianMerge(Compiler):
                     # where the value is a displacement gate added and its key is the qumode its operating upon.
                     displacement_mapping = self.add_displacement_gates(gaussian_transform)
 
-                    # If there are predecessors: Attach predecessor edges to new gaussian transform
-                    if predecessors:
-                        self.new_DAG.add_edges_from(
-                            [(pre, gaussian_transform[0]) for pre in predecessors]
-                        )
-
-                    # Add edges to all successor operations not merged
-                    self.add_non_gaussian_successor_gates(
-                        gaussian_transform, successors, displacement_mapping
-                    )
-
-                    # Add edges for all successor/predecessor operations of the merged operations
-                    self.add_gaussian_pre_and_succ_gates(
-                        gaussian_transform, merged_gaussian_ops, displacement_mapping
+                    # Everything that preceded / followed one of the merged operations now
+                    # precedes / follows the new operations
+                    self.connect_merged_block(
+                        gaussian_transform, [op] + merged_gaussian_ops, displacement_mapping
                     )
 
                     self.new_DAG.remove_nodes_from([op] + merged_gaussian_ops)
@@ -218,6 +208,24 @@ class GaussianMerge(Compiler):
                     self.curr_seq = pu.DAG_to_list(self.new_DAG)
                     return True
         return False
+
+    def connect_merged_block(self, gaussian_transform, block, displacement_mapping):
+        """
+        Updates the DAG by connecting the new gaussian transform and displacement gates to every operation that
+        is not merged and preceded or followed one of the merged operations (gaussian or not).
+        """
+        merged = set(block)
+        predecessors = {pre for gate in block for pre in self.DAG.predecessors(gate)} - merged
+        successors = {post for gate in block for post in self.DAG.successors(gate)} - merged
+
+        self.new_DAG.add_edges_from([(pre, gaussian_transform[0]) for pre in predecessors])
+
+        for successor_op in successors:
+            self.new_DAG.add_edge(gaussian_transform[0], successor_op)
+            # the successor also has to wait for the displacement gates on its qumodes
+            for qumode in get_qumodes_operated_upon(successor_op):
+                if qumode in displacement_mapping:
+                    self.new_DAG.add_edge(displacement_mapping[qumode], successor_op)
 
     def recursive_d_gate_successors(self, gate):
         """
